@@ -233,8 +233,15 @@ theorem pureSortLess_value (f name : Bytes) (rev : Bool) (h : (parseSort lowerK 
   rw [ok_of_toOption h]; simp only; rw [h2]
   cases rev <;> rfl
 
+theorem pureSortLess_numeric (f name : Bytes) (rev : Bool) (h : (parseSort lowerK f).toOption = some (name, rev))
+    (h2 : lookupMode lowerK name = some .numeric) :
+    pureSortLess f = some (bif rev then revLess nvSmartLess else nvSmartLess) := by
+  unfold pureSortLess
+  rw [ok_of_toOption h]; simp only; rw [h2]
+  cases rev <;> rfl
+
 theorem pureSortLess_infer (f name : Bytes) (rev : Bool) (m : Mode) (h : (parseSort lowerK f).toOption = some (name, rev))
-    (h2 : lookupMode lowerK name = some m) (hm : m ≠ .text ∧ m ≠ .value) : pureSortLess f = none := by
+    (h2 : lookupMode lowerK name = some m) (hm : m ≠ .text ∧ m ≠ .value ∧ m ≠ .numeric) : pureSortLess f = none := by
   unfold pureSortLess
   rw [ok_of_toOption h]; simp only; rw [h2]
   cases m <;> simp_all
